@@ -15,6 +15,7 @@ import (
 	"log"
 	"net/http"
 	"net/http/httptest"
+	"net/url"
 	"os"
 	"sort"
 	"strconv"
@@ -34,8 +35,11 @@ import (
 func init() {
 	hx.Register(&hx.Prop{
 		ID: "C14",
-		Rule: "exhaustive: every handler op sequence of length ≤ 3 (thorough: ≤ 4) over a 9-letter alphabet (Content-Type set, X-A set, WriteHeader 200/404/0, Write valid/invalid piece, empty Write, Flush) " +
-			"× strict/non-strict × 6 response-document shapes, plus route/request failures × ErrFunc kinds (default http.Error, echo, silent, custom op list) × routers × recorder/real server, " +
+		Rule: "exhaustive: every handler op sequence of length ≤ 3 (thorough: ≤ 4) over a 10-letter alphabet (Content-Type set, X-A set to a valid / an invalid value, WriteHeader 200/404/0, Write valid/invalid piece, empty Write, Flush) " +
+			"× strict/non-strict × 10 response-document shapes (exact, range and default keys; JSON content, required response header, both; IncludeResponseStatus, ExcludeResponseBody); " +
+			"every way an operation can constrain the request, alone and in pairs with exactly one failing (document-level / operation-level security incl. override, empty list, undeclared scheme, AND/OR requirements; " +
+			"operation-level and path-level parameters in query/header/cookie/path; body schema/empty/content-type) × strict × routers × transports × Validator/ValidationHandler × neighbour operations that demand nothing; " +
+			"plus route/request failures × ErrFunc kinds (default http.Error, echo, silent, custom op list) × routers × recorder/real server, " +
 			"plus ValidationHandler (ServeHTTP/Middleware × custom/ValidationErrorEncoder × route/request outcomes); then a seeded random stream of op lists up to length 8 " +
 			"(incl. invalid status codes, header deletions, Content-Type variants). Non-trivial = the model reports a non-default branch (e.g. write before WriteHeader, several WriteHeader calls, " +
 			"no status at all, Flush before the status, strict replacement, custom callbacks, real server transport).",
@@ -48,6 +52,7 @@ func init() {
 		Assumptions: []string{
 			"verdicts of FindRoute / ValidateRequest / ValidateResponse are controlled through the document and the request (required integer query parameter; response entries with or without an application/json integer schema; body bytes drawn from digits 1-9 and 'x') and recomputed by the driver for that family",
 			"status codes 1xx, 204, 304 and HEAD requests are not generated (httptest.ResponseRecorder and the net/http server differ there); only behaviour common to both transports is compared",
+			"request verdict: the operation is described as in C07 (parameters with a controlled verdict, security requirements decided by an AuthenticationFunc from the accepted-scheme set, body passing / schema / missing / content-type) and the driver evaluates the C07 model of ValidateRequest on it; ValidationHandler + unknown method is generated only for paths without template variables",
 			"w.Write of the client's writer never fails (no closed connections), so the 'failed to write response' log is not reachable",
 			"behind the real server only status, body, the X-*/Content-Type headers the model knows to be set, and connection abort (handler panic) are observable",
 		},
@@ -84,22 +89,161 @@ func c14Server() {
 
 // ---- document family
 
+// parameter with a controlled verdict: integer with maximum 9 (passes) or 1 (fails) against the value 5
+func c14Param(pm map[string]any) *openapi3.ParameterRef {
+	max := 9.0
+	if !jbool(pm, "ok") {
+		max = 1.0
+	}
+	sch := openapi3.NewIntegerSchema()
+	sch.Max = &max
+	p := &openapi3.Parameter{Name: jstr(pm, "name"), In: jstr(pm, "in"), Schema: sch.NewRef()}
+	if p.In == "path" {
+		p.Required = true
+	}
+	return &openapi3.ParameterRef{Value: p}
+}
+
+func c14Reqs(v any) openapi3.SecurityRequirements {
+	srs := openapi3.SecurityRequirements{}
+	for _, r := range jlist(v) {
+		sr := openapi3.SecurityRequirement{}
+		for _, n := range jlist(r) {
+			sr[n.(string)] = []string{}
+		}
+		srs = append(srs, sr)
+	}
+	return srs
+}
+
+func c14Rq(c hx.Case) map[string]any {
+	m, _ := c["rq"].(map[string]any)
+	if m == nil {
+		m = map[string]any{}
+	}
+	return m
+}
+
+// path-located parameter names in order of first appearance (path-level list first)
+func c14PathNames(rq map[string]any) []string {
+	var out []string
+	seen := map[string]bool{}
+	for _, k := range []string{"pathParams", "opParams"} {
+		for _, p := range jlist(rq[k]) {
+			pm := p.(map[string]any)
+			if jstr(pm, "in") == "path" && !seen[jstr(pm, "name")] {
+				seen[jstr(pm, "name")] = true
+				out = append(out, jstr(pm, "name"))
+			}
+		}
+	}
+	return out
+}
+
+func c14Method(c hx.Case) string {
+	if jbool(c14Rq(c), "hasBody") {
+		return "POST"
+	}
+	return "GET"
+}
+
+func c14Template(c hx.Case) string {
+	t := "/x"
+	for _, n := range c14PathNames(c14Rq(c)) {
+		t += "/{" + n + "}"
+	}
+	return t
+}
+
 func c14Doc(c hx.Case) *openapi3.T {
 	docm, _ := c["doc"].(map[string]any)
+	rq := c14Rq(c)
 	doc := &openapi3.T{OpenAPI: "3.0.0", Info: &openapi3.Info{Title: "t", Version: "1"}, Paths: openapi3.NewPaths()}
 	op := &openapi3.Operation{Responses: &openapi3.Responses{}}
 	for _, e := range jlist(docm["responses"]) {
 		em := e.(map[string]any)
 		desc := "d"
 		resp := &openapi3.Response{Description: &desc}
-		if jstr(em, "kind") == "json" {
+		kind := jstr(em, "kind")
+		if kind == "json" || kind == "hdrjson" {
 			resp.Content = openapi3.NewContentWithJSONSchema(openapi3.NewIntegerSchema())
+		}
+		if kind == "hdr" || kind == "hdrjson" {
+			resp.Headers = openapi3.Headers{"X-A": &openapi3.HeaderRef{Value: &openapi3.Header{Parameter: openapi3.Parameter{
+				Required: true, Schema: openapi3.NewIntegerSchema().NewRef()}}}}
 		}
 		op.Responses.Set(jstr(em, "key"), &openapi3.ResponseRef{Value: resp})
 	}
-	op.Parameters = openapi3.Parameters{&openapi3.ParameterRef{Value: &openapi3.Parameter{
-		Name: "q", In: "query", Required: true, Schema: openapi3.NewIntegerSchema().NewRef()}}}
-	doc.Paths.Set("/x", &openapi3.PathItem{Get: op})
+	if !jbool(c, "noq") {
+		op.Parameters = openapi3.Parameters{&openapi3.ParameterRef{Value: &openapi3.Parameter{
+			Name: "q", In: "query", Required: true, Schema: openapi3.NewIntegerSchema().NewRef()}}}
+	}
+	for _, pm := range jlist(rq["opParams"]) {
+		op.Parameters = append(op.Parameters, c14Param(pm.(map[string]any)))
+	}
+	pi := &openapi3.PathItem{}
+	for _, pm := range jlist(rq["pathParams"]) {
+		pi.Parameters = append(pi.Parameters, c14Param(pm.(map[string]any)))
+	}
+	if len(jlist(rq["declared"])) > 0 {
+		doc.Components = &openapi3.Components{SecuritySchemes: openapi3.SecuritySchemes{}}
+		for _, n := range jlist(rq["declared"]) {
+			doc.Components.SecuritySchemes[n.(string)] = &openapi3.SecuritySchemeRef{Value: openapi3.NewSecurityScheme().WithType("http").WithScheme("basic")}
+		}
+	}
+	if l := jlist(rq["docSecurity"]); len(l) > 0 {
+		doc.Security = c14Reqs(l)
+	}
+	if rq["opSecurity"] != nil {
+		sr := c14Reqs(rq["opSecurity"])
+		op.Security = &sr
+	}
+	if jbool(rq, "hasBody") {
+		need := "a"
+		if jstr(rq, "bodyFail") == "schema" {
+			need = "b"
+		}
+		sch := openapi3.NewObjectSchema()
+		sch.Required = []string{need}
+		op.RequestBody = &openapi3.RequestBodyRef{Value: openapi3.NewRequestBody().WithJSONSchema(sch).WithRequired(true)}
+	}
+	lax := func() *openapi3.Operation {
+		// a neighbour that demands nothing and documents nothing: must never be the operation consulted
+		desc := "d"
+		o := &openapi3.Operation{Responses: &openapi3.Responses{}, Security: &openapi3.SecurityRequirements{}}
+		o.Responses.Set("default", &openapi3.ResponseRef{Value: &openapi3.Response{Description: &desc}})
+		return o
+	}
+	laxHere := func() *openapi3.Operation {
+		o := lax()
+		pathLevel := map[string]bool{}
+		for _, p := range jlist(rq["pathParams"]) {
+			if pm := p.(map[string]any); jstr(pm, "in") == "path" {
+				pathLevel[jstr(pm, "name")] = true
+			}
+		}
+		for _, n := range c14PathNames(rq) {
+			if !pathLevel[n] { // template variables declared only by the main operation: the neighbour needs them too
+				o.Parameters = append(o.Parameters, c14Param(c14P(n, "path", true)))
+			}
+		}
+		return o
+	}
+	if c14Method(c) == "POST" {
+		pi.Post = op
+		if jbool(c, "decoy") {
+			pi.Get = laxHere()
+		}
+	} else {
+		pi.Get = op
+		if jbool(c, "decoy") {
+			pi.Post = laxHere()
+		}
+	}
+	doc.Paths.Set(c14Template(c), pi)
+	if jbool(c, "decoy") {
+		doc.Paths.Set("/z", &openapi3.PathItem{Get: lax(), Post: lax()})
+	}
 	return doc
 }
 
@@ -112,9 +256,12 @@ type c14Routers struct {
 var c14DocCache sync.Map // canonical doc text -> *c14Routers
 
 func c14RoutersFor(c hx.Case) *c14Routers {
+	cacheable := c["rq"] == nil && !jbool(c, "decoy") && !jbool(c, "noq")
 	key := hx.Canon(c["doc"])
-	if v, ok := c14DocCache.Load(key); ok {
-		return v.(*c14Routers)
+	if cacheable {
+		if v, ok := c14DocCache.Load(key); ok {
+			return v.(*c14Routers)
+		}
 	}
 	r := &c14Routers{}
 	doc := c14Doc(c)
@@ -125,6 +272,9 @@ func c14RoutersFor(c hx.Case) *c14Routers {
 		if r.err == nil {
 			r.legacy, r.err = legacyrouter.NewRouter(doc)
 		}
+	}
+	if !cacheable {
+		return r
 	}
 	v, _ := c14DocCache.LoadOrStore(key, r)
 	return v.(*c14Routers)
@@ -195,6 +345,19 @@ func c14LogKind(msg string) string {
 	return "other:" + msg
 }
 
+func c14Auth(c hx.Case) openapi3filter.AuthenticationFunc {
+	accepted := map[string]bool{}
+	for _, n := range jlist(c14Rq(c)["accepted"]) {
+		accepted[n.(string)] = true
+	}
+	return func(ctx context.Context, ai *openapi3filter.AuthenticationInput) error {
+		if accepted[ai.SecuritySchemeName] {
+			return nil
+		}
+		return errors.New("denied")
+	}
+}
+
 func c14Build(c hx.Case, obs *c14Obs) (http.Handler, error) {
 	inner := http.HandlerFunc(func(w http.ResponseWriter, r *http.Request) {
 		obs.mu.Lock()
@@ -207,9 +370,11 @@ func c14Build(c hx.Case, obs *c14Obs) (http.Handler, error) {
 		if err != nil {
 			return nil, err
 		}
+		vh.AuthenticationFunc = c14Auth(c)
 		kindOf := func(err error) string {
 			var re *routers.RouteError
 			var qe *openapi3filter.RequestError
+			var se *openapi3filter.SecurityRequirementsError
 			switch {
 			case errors.As(err, &re):
 				if re.Error() == routers.ErrPathNotFound.Error() {
@@ -219,8 +384,13 @@ func c14Build(c hx.Case, obs *c14Obs) (http.Handler, error) {
 					return "nomethod"
 				}
 				return "route:" + re.Error()
+			case errors.As(err, &se):
+				return "security"
 			case errors.As(err, &qe):
-				return "invalid"
+				if qe.RequestBody != nil {
+					return "body"
+				}
+				return "param"
 			}
 			return "other"
 		}
@@ -234,7 +404,7 @@ func c14Build(c hx.Case, obs *c14Obs) (http.Handler, error) {
 			var orig error
 			vee := &openapi3filter.ValidationErrorEncoder{Encoder: func(ctx context.Context, err error, w http.ResponseWriter) {
 				rec(kindOf(orig))
-				code := 0
+				code := http.StatusInternalServerError // as DefaultErrorEncoder: an error without a status is a 500
 				if sc, ok := err.(openapi3filter.StatusCoder); ok {
 					code = sc.StatusCode()
 				}
@@ -269,7 +439,10 @@ func c14Build(c hx.Case, obs *c14Obs) (http.Handler, error) {
 	}
 	opts := []openapi3filter.ValidatorOption{openapi3filter.Strict(jbool(c, "strict"))}
 	docm, _ := c["doc"].(map[string]any)
-	o := openapi3filter.Options{IncludeResponseStatus: jbool(docm, "includeStatus")}
+	rq := c14Rq(c)
+	o := openapi3filter.Options{IncludeResponseStatus: jbool(docm, "includeStatus"), ExcludeResponseBody: jbool(docm, "excludeRespBody"),
+		ExcludeRequestBody: jbool(rq, "excludeBody"), ExcludeRequestQueryParams: jbool(rq, "excludeQuery"), MultiError: jbool(rq, "multi"),
+		AuthenticationFunc: c14Auth(c)}
 	opts = append(opts, openapi3filter.ValidationOptions(o))
 	recErr := func(status int, code openapi3filter.ErrCode) {
 		obs.mu.Lock()
@@ -306,24 +479,60 @@ func c14Build(c hx.Case, obs *c14Obs) (http.Handler, error) {
 }
 
 func c14Request(c hx.Case, base string) *http.Request {
-	method, path, query := "GET", "/x", "q=5"
+	rq := c14Rq(c)
+	method, path := c14Method(c), "/x"
+	for range c14PathNames(rq) {
+		path += "/5"
+	}
+	q := url.Values{}
+	if !jbool(c, "noq") {
+		q.Set("q", "5")
+	}
 	switch jstr(c, "route") {
 	case "nopath":
-		path = "/y"
+		path = "/y" + strings.TrimPrefix(path, "/x")
 	case "nomethod":
-		method = "POST"
+		method = "PUT"
 	}
 	switch jstr(c, "req") {
 	case "missing":
-		query = ""
+		q.Del("q")
 	case "type":
-		query = "q=abc"
+		if !jbool(c, "noq") {
+			q.Set("q", "abc")
+		}
 	}
-	u := base + path
-	if query != "" {
-		u += "?" + query
+	var body io.Reader
+	if jbool(rq, "hasBody") && jstr(rq, "bodyFail") != "empty" {
+		body = strings.NewReader(`{"a":1}`)
 	}
-	req, _ := http.NewRequest(method, u, nil)
+	req, _ := http.NewRequest(method, base+path, body)
+	if jbool(rq, "hasBody") && jstr(rq, "bodyFail") != "empty" {
+		if jstr(rq, "bodyFail") == "ctype" {
+			req.Header.Set("Content-Type", "text/plain")
+		} else {
+			req.Header.Set("Content-Type", "application/json")
+		}
+	}
+	seenCookie := map[string]bool{}
+	for _, k := range []string{"opParams", "pathParams"} {
+		for _, p := range jlist(rq[k]) {
+			pm := p.(map[string]any)
+			name := jstr(pm, "name")
+			switch jstr(pm, "in") {
+			case "query":
+				q.Set(name, "5")
+			case "header":
+				req.Header.Set(name, "5")
+			case "cookie":
+				if !seenCookie[name] {
+					seenCookie[name] = true
+					req.AddCookie(&http.Cookie{Name: name, Value: "5"})
+				}
+			}
+		}
+	}
+	req.URL.RawQuery = q.Encode()
 	return req
 }
 
@@ -547,6 +756,85 @@ var c14Docs = []map[string]any{
 	c14DocShape(true, "200", "json"),
 	c14DocShape(true, "200", "any", "404", "json"),
 	c14DocShape(false, "200", "any", "default", "json"),
+	c14DocShape(false, "2XX", "json", "404", "hdr"),
+	c14DocShape(true, "200", "hdr", "4XX", "json"),
+	c14DocShape(false, "200", "hdrjson"),
+	c14DocExB(c14DocShape(true, "200", "hdrjson", "4XX", "json")),
+}
+
+func c14DocExB(d map[string]any) map[string]any {
+	d["excludeRespBody"] = true
+	return d
+}
+
+func c14P(name, in string, ok bool) map[string]any {
+	return map[string]any{"name": name, "in": in, "ok": ok}
+}
+
+type c14Src struct {
+	name string
+	fail bool
+	rq   map[string]any
+}
+
+// the ways an operation can constrain a request, each alone, in a passing and in failing variants
+func c14Sources() []c14Src {
+	A := []any{"a"}
+	out := []c14Src{
+		{"sec.doc", false, map[string]any{"docSecurity": []any{A}, "declared": []any{"a"}, "accepted": []any{"a"}}},
+		{"sec.doc", true, map[string]any{"docSecurity": []any{A}, "declared": []any{"a"}, "accepted": []any{}}},
+		{"sec.doc.undeclared", true, map[string]any{"docSecurity": []any{[]any{"u"}}, "declared": []any{"a"}, "accepted": []any{"a", "u"}}},
+		{"sec.doc.alt", false, map[string]any{"docSecurity": []any{A, []any{"b"}}, "declared": []any{"a", "b"}, "accepted": []any{"b"}}},
+		{"sec.doc.and", true, map[string]any{"docSecurity": []any{[]any{"a", "b"}}, "declared": []any{"a", "b"}, "accepted": []any{"a"}}},
+		{"sec.op", false, map[string]any{"opSecurity": []any{A}, "declared": []any{"a"}, "accepted": []any{"a"}}},
+		{"sec.op", true, map[string]any{"opSecurity": []any{A}, "declared": []any{"a"}, "accepted": []any{}}},
+		{"sec.op.over", true, map[string]any{"opSecurity": []any{A}, "docSecurity": []any{[]any{"b"}}, "declared": []any{"a", "b"}, "accepted": []any{"b"}}},
+		{"sec.op.over", false, map[string]any{"opSecurity": []any{A}, "docSecurity": []any{[]any{"b"}}, "declared": []any{"a", "b"}, "accepted": []any{"a"}}},
+		{"sec.op.none", false, map[string]any{"opSecurity": []any{}, "docSecurity": []any{A}, "declared": []any{"a"}, "accepted": []any{}}},
+		{"body", false, map[string]any{"hasBody": true, "bodyFail": ""}},
+		{"body.schema", true, map[string]any{"hasBody": true, "bodyFail": "schema"}},
+		{"body.empty", true, map[string]any{"hasBody": true, "bodyFail": "empty"}},
+		{"body.ctype", true, map[string]any{"hasBody": true, "bodyFail": "ctype"}},
+	}
+	for _, lvl := range []string{"opParams", "pathParams"} {
+		for _, in := range []string{"query", "header", "cookie", "path"} {
+			for _, ok := range []bool{true, false} {
+				out = append(out, c14Src{"param." + lvl + "." + in, !ok, map[string]any{lvl: []any{c14P("p", in, ok)}}})
+			}
+		}
+	}
+	return out
+}
+
+// merge two request descriptions (lists concatenated, security/body fields of b win when a has none)
+func c14MergeRq(a, b map[string]any) (map[string]any, bool) {
+	out := map[string]any{}
+	for k, v := range a {
+		out[k] = v
+	}
+	for k, v := range b {
+		switch k {
+		case "opParams", "pathParams":
+			l := append([]any{}, jlist(out[k])...)
+			for _, p := range jlist(v) {
+				pm := p.(map[string]any)
+				for _, q := range l {
+					qm := q.(map[string]any)
+					if jstr(qm, "name") == jstr(pm, "name") && jstr(qm, "in") == jstr(pm, "in") {
+						return nil, false
+					}
+				}
+				l = append(l, p)
+			}
+			out[k] = l
+		default:
+			if _, dup := out[k]; dup {
+				return nil, false
+			}
+			out[k] = v
+		}
+	}
+	return out, true
 }
 
 func c14Base() hx.Case {
@@ -565,7 +853,7 @@ func c14With(c hx.Case, kv ...any) hx.Case {
 func genC14(ctx *hx.Ctx, emit func(hx.Case)) {
 	ct := c14Op("set", "Content-Type", "application/json")
 	alphabet := []map[string]any{
-		ct, c14Op("wh", 200), c14Op("wh", 404), c14Op("w", "12"), c14Op("w", "x"), c14Op("w", ""), c14Op("fl"), c14Op("set", "X-A", "1"), c14Op("wh", 0),
+		ct, c14Op("wh", 200), c14Op("wh", 404), c14Op("w", "12"), c14Op("w", "x"), c14Op("w", ""), c14Op("fl"), c14Op("set", "X-A", "1"), c14Op("wh", 0), c14Op("set", "X-A", "z"),
 	}
 	// all op sequences of length ≤ 3 (quick) / ≤ 4 (thorough)
 	maxLen := 3
@@ -631,6 +919,52 @@ func genC14(ctx *hx.Ctx, emit func(hx.Case)) {
 			}
 		}
 	}
+	// the ways a request can be invalid: every source alone and every pair with exactly one failing member
+	srcs := c14Sources()
+	var rqs []map[string]any
+	for _, a := range srcs {
+		rqs = append(rqs, a.rq)
+	}
+	for _, a := range srcs {
+		if !a.fail {
+			continue
+		}
+		for _, b := range srcs {
+			if b.fail || strings.SplitN(a.name, ".", 2)[0] == strings.SplitN(b.name, ".", 2)[0] && !strings.HasPrefix(a.name, "param") {
+				continue
+			}
+			if m, ok := c14MergeRq(a.rq, b.rq); ok {
+				rqs = append(rqs, m)
+			}
+		}
+	}
+	type hcfg struct{ mode, router, transport, entry, enc, errfn string }
+	hcfgs := []hcfg{{"mw", "gorilla", "recorder", "", "", "default"}, {"mw", "legacy", "server", "", "", "echo"},
+		{"vh", "gorilla", "recorder", "serve", "vee", "default"}, {"vh", "gorilla", "server", "mw", "ops", "default"}}
+	k := 0
+	for _, rq := range rqs {
+		for _, strict := range []bool{true, false} {
+			for hi, h := range hcfgs {
+				for _, decoy := range []bool{false, true} {
+					k++
+					if h.mode == "vh" && strict {
+						continue // ValidationHandler has no strict mode
+					}
+					ops := someOps[(k+hi)%len(someOps)]
+					emit(c14With(base, "rq", rq, "noq", true, "decoy", decoy, "strict", strict, "mode", h.mode, "router", h.router,
+						"transport", h.transport, "entry", h.entry, "enc", h.enc, "errfn", h.errfn, "ops", ops, "doc", c14Docs[k%len(c14Docs)],
+						"errops", []any{c14Op("set", "X-B", "e"), c14Op("wh", 418), c14Op("w", "teapot")}))
+				}
+			}
+		}
+		// option flags of the Validator that change which parts are checked
+		for o := 1; o < 8; o++ {
+			r2 := map[string]any{"excludeBody": o&1 != 0, "excludeQuery": o&2 != 0, "multi": o&4 != 0}
+			if m, ok := c14MergeRq(rq, r2); ok {
+				emit(c14With(base, "rq", m, "noq", o&2 != 0 && o&1 != 0, "strict", o&4 != 0, "ops", someOps[o%len(someOps)], "doc", c14Docs[o%len(c14Docs)]))
+			}
+		}
+	}
 	// ValidationHandler
 	for _, route := range []string{"ok", "nopath", "nomethod"} {
 		for _, rq := range []string{"ok", "missing", "type"} {
@@ -663,7 +997,7 @@ func genC14(ctx *hx.Ctx, emit func(hx.Case)) {
 		case 6, 7:
 			return c14Op("set", "Content-Type", hx.Pick(r, []string{"application/json", "application/json; charset=utf-8", "text/plain"}))
 		case 8:
-			return c14Op("set", hx.Pick(r, []string{"X-A", "X-B"}), hx.Pick(r, []string{"1", "2"}))
+			return c14Op("set", hx.Pick(r, []string{"X-A", "X-A", "X-B"}), hx.Pick(r, []string{"1", "2", "z"}))
 		case 9:
 			return c14Op("del", hx.Pick(r, []string{"X-A", "Content-Type"}))
 		case 10:
@@ -679,18 +1013,64 @@ func genC14(ctx *hx.Ctx, emit func(hx.Case)) {
 		}
 		return out
 	}
-	keys := []string{"200", "201", "404", "500", "default"}
+	keys := []string{"200", "201", "404", "500", "default", "2XX", "4XX"}
 	randDoc := func() map[string]any {
 		rs := []any{}
 		for _, k := range keys {
 			if r.Chance(40) {
-				rs = append(rs, map[string]any{"key": k, "kind": hx.Pick(r, []string{"json", "json", "any"})})
+				rs = append(rs, map[string]any{"key": k, "kind": hx.Pick(r, []string{"json", "json", "any", "hdr", "hdrjson"})})
 			}
 		}
 		if len(rs) == 0 {
 			rs = append(rs, map[string]any{"key": "200", "kind": "json"})
 		}
-		return map[string]any{"responses": rs, "includeStatus": r.Chance(30)}
+		d := map[string]any{"responses": rs, "includeStatus": r.Chance(30)}
+		if r.Chance(15) {
+			d["excludeRespBody"] = true
+		}
+		return d
+	}
+	randParams := func() []any {
+		out := []any{}
+		seen := map[string]bool{}
+		for i, k := 0, r.Intn(4); i < k; i++ {
+			p := c14P(hx.Pick(r, []string{"p", "r"}), hx.Pick(r, []string{"query", "header", "cookie", "path"}), r.Chance(70))
+			key := jstr(p, "in") + ":" + jstr(p, "name")
+			if !seen[key] {
+				seen[key] = true
+				out = append(out, p)
+			}
+		}
+		return out
+	}
+	randReqs := func() []any {
+		rs := []any{}
+		for i, k := 0, r.Intn(3); i < k; i++ {
+			req := []any{}
+			seen := map[string]bool{}
+			for j, m := 0, r.Intn(3); j < m; j++ {
+				s := hx.Pick(r, []string{"a", "b", "c", "u"})
+				if !seen[s] {
+					seen[s] = true
+					req = append(req, s)
+				}
+			}
+			rs = append(rs, req)
+		}
+		return rs
+	}
+	randRq := func() map[string]any {
+		rq := map[string]any{"opParams": randParams(), "pathParams": randParams(), "docSecurity": randReqs(),
+			"declared": []any{"a", "b", "c"}, "accepted": hx.Pick(r, [][]any{{}, {"a"}, {"b"}, {"a", "b"}, {"a", "b", "c"}, {"c", "u"}}),
+			"excludeBody": r.Chance(20), "excludeQuery": r.Chance(20), "multi": r.Chance(30)}
+		if r.Chance(45) {
+			rq["opSecurity"] = randReqs()
+		}
+		if r.Chance(45) {
+			rq["hasBody"] = true
+			rq["bodyFail"] = hx.Pick(r, []string{"", "", "", "schema", "empty", "ctype"})
+		}
+		return rq
 	}
 	for k := 0; k < n; k++ {
 		c := c14With(base, "ops", randOps(8), "strict", r.Bool(), "doc", randDoc(),
@@ -704,10 +1084,20 @@ func genC14(ctx *hx.Ctx, emit func(hx.Case)) {
 		if r.Chance(12) {
 			c["req"] = hx.Pick(r, []string{"missing", "type"})
 		}
+		if r.Chance(45) {
+			c["rq"] = randRq()
+			c["noq"] = r.Chance(60)
+			c["decoy"] = r.Chance(40)
+		}
 		if r.Chance(10) {
 			c["mode"] = "vh"
 			c["enc"] = hx.Pick(r, []string{"vee", "ops", "silent"})
 			c["entry"] = hx.Pick(r, []string{"serve", "mw"})
+			if jstr(c, "route") == "nomethod" && len(c14PathNames(c14Rq(c))) > 0 {
+				// the legacy router (the only one ValidationHandler uses) reports an unknown method on a
+				// templated path as "path not found" (C09's subject): keep the route outcome unambiguous here
+				c["route"] = "nopath"
+			}
 		}
 		emit(c)
 	}
@@ -738,6 +1128,41 @@ func shrinkC14(c hx.Case) []hx.Case {
 			x["doc"] = map[string]any{"responses": d["responses"], "includeStatus": false}
 			out = append(out, x)
 		}
+	}
+	if rq, ok := c["rq"].(map[string]any); ok {
+		with := func(k string, v any) hx.Case {
+			n := map[string]any{}
+			for a, b := range rq {
+				n[a] = b
+			}
+			if v == nil {
+				delete(n, k)
+			} else {
+				n[k] = v
+			}
+			return c14With(c, "rq", n)
+		}
+		for _, k := range []string{"opParams", "pathParams", "docSecurity", "opSecurity", "accepted"} {
+			if l, ok := rq[k].([]any); ok {
+				for _, n := range dropEach(l) {
+					out = append(out, with(k, n))
+				}
+			}
+		}
+		if rq["opSecurity"] != nil {
+			out = append(out, with("opSecurity", nil))
+		}
+		for _, k := range []string{"hasBody", "excludeBody", "excludeQuery", "multi"} {
+			if jbool(rq, k) {
+				out = append(out, with(k, false))
+			}
+		}
+		if jstr(rq, "bodyFail") != "" {
+			out = append(out, with("bodyFail", ""))
+		}
+	}
+	if jbool(c, "decoy") {
+		out = append(out, c14With(c, "decoy", false))
 	}
 	if jstr(c, "transport") == "server" {
 		out = append(out, c14With(c, "transport", "recorder"))
